@@ -3,6 +3,7 @@
    - over the encryption reader over the cursor on ANY bytes (comp ∘ enc ∘ cursor);
    and what reads above it (block parser, repair) through RdOnly: these clients call `rd`
    only, and their definitions over RdOnly X are the very same terms as over X. *)
+From MLA Require Import Limit.
 From MLA Require Import Base Stream Blocks Writer Repair EncLayer CompLayer Total TotalEnc TotalComp TotalRepair.
 From Coq Require Import ZifyBool ZifyNat ZifyN.
 Open Scope N_scope.
@@ -14,6 +15,7 @@ Proof. reflexivity. Qed.
 
 Section CompStack.
   Variables BLOCK LIMIT : N.
+  Local Hint Extern 0 Limit => exact LIMIT : typeclass_instances.
   Variable dec : bytes -> bytes.
   Hypothesis HB : 0 < BLOCK.
 
